@@ -77,16 +77,24 @@ def seq_cases(draw):
             cutoff = None
     else:
         pool = draw(pools(draw(st.integers(3, 4))))
+    lead = []
+    if draw(st.integers(0, 3)) == 0:
+        # start with one contraction followed at once by a near copy of it (a
+        # twin, or the same labels with other sizes) through the same entry
+        qi0 = draw(st.integers(0, len(pool) - 1))
+        e0 = draw(st.sampled_from(["search", "call", "tree", "path"]))
+        t0, t1 = draw(st.sampled_from([(0, 4), (0, 4), (4, 0), (0, 1), (0, 2), (1, 4)]))
+        lead = [(qi0, e0, t0), (qi0, draw(st.sampled_from(["search", e0])), t1)]
     return {
         "mode": "seq",
         "pool": pool,
         "kind": kind,
         "cutoff": cutoff,
-        "calls": draw(
+        "calls": lead + draw(
             st.lists(
                 st.tuples(
                     st.integers(0, len(pool) - 1), st.sampled_from(["search", "call", "tree", "path"]),
-                    st.sampled_from([0, 0, 1, 2, 3]),
+                    st.sampled_from([0, 0, 1, 2, 3, 4]),
                 ),
                 min_size=2, max_size=6,
             )
@@ -98,7 +106,7 @@ def seq_cases(draw):
 def sched_cases(draw):
     nth = draw(st.sampled_from([2, 2, 3]))
     pool = draw(pools(draw(st.integers(2, 3))))
-    one = st.tuples(st.integers(0, len(pool) - 1), st.sampled_from([0, 0, 0, 1, 2]), st.sampled_from(["search", "call"]))
+    one = st.tuples(st.integers(0, len(pool) - 1), st.sampled_from([0, 0, 0, 1, 2, 4]), st.sampled_from(["search", "call"]))
     # every thread asks one or two queries in a row; pool members are drawn
     # WITH replacement, so two threads can be inside a search for the same
     # contraction (or for twins of it) at the same time
@@ -180,7 +188,11 @@ def query(net, twin=0):
             inputs[i] = inputs[i][1:] + inputs[i][:1]
     if twin in (2, 3) and len(output) >= 2:
         output = output[1:] + output[:1]
-    return tuple(inputs), output, dict(net["sizes"])
+    sizes = dict(net["sizes"])
+    if twin == 4:
+        # same labels, every dimension one larger: another contraction again
+        sizes = {ix: d + 1 for ix, d in sizes.items()}
+    return tuple(inputs), output, sizes
 
 
 def judge(kind_val, q, what, viol):
@@ -192,6 +204,8 @@ def judge(kind_val, q, what, viol):
         check_tree(val, inputs, output, sizes, viol, what)
         if not viol and (tuple(map(tuple, val.inputs)) != inputs or tuple(val.output) != output):
             viol.append(f"{what}: the tree belongs to another contraction (inputs/output differ from the query)")
+        if not viol and any(val.size_dict.get(ix) != d for ix, d in sizes.items()):
+            viol.append(f"{what}: the tree belongs to another contraction (its index sizes are not those of the query)")
     else:
         try:
             p = [tuple(s) for s in val]
@@ -217,7 +231,7 @@ def run_seq(spec):
         q = query(spec["pool"][qi], tw)
         seen.add(qi)
         twins.add((qi, q[0], q[1]))
-        what = f"call#{k} {spec['kind']}.{entry}(query {qi}{'abcd'[tw] if tw else ''}, N={len(q[0])})"
+        what = f"call#{k} {spec['kind']}.{entry}(query {qi}{'abcde'[tw] if tw else ''}, N={len(q[0])})"
         ok, res = guarded(ask, opt, entry, q)
         if not ok:
             viol.append(f"{what} raised {res}")
@@ -245,8 +259,61 @@ YIELD_FILES = ("reusable.py", "presets.py")
 YIELD_HYPER_FUNCS = {"search", "_search", "__call__", "tree", "path", "setup", "get_tree", "_gen_results", "_maybe_report_result"}
 
 
+class CoopLock:
+    """Stands in for threading.Lock / RLock objects created while a schedule
+    runs: a thread that would block hands the turn to another thread instead
+    of blocking the whole (one-thread-at-a-time) schedule."""
+
+    def __init__(self, sched, reentrant=False):
+        self.sched, self.reentrant = sched, reentrant
+        self.owner, self.depth = None, 0
+
+    def acquire(self, blocking=True, timeout=-1):
+        me = self.sched.me()
+        spins = 0
+        while self.owner is not None and not (self.reentrant and self.owner == me):
+            if not blocking or me is None:
+                return False
+            spins += 1
+            if spins > 10000:
+                raise HarnessError("cooperative lock never became free")
+            self.sched.block(me)
+        self.owner = me
+        self.depth += 1
+        return True
+
+    def release(self):
+        self.depth -= 1
+        if self.depth <= 0:
+            self.owner, self.depth = None, 0
+
+    def locked(self):
+        return self.owner is not None
+
+    __enter__ = acquire
+
+    def __exit__(self, *exc):
+        self.release()
+        return False
+
+
 class Scheduler:
+    def me(self):
+        return self.idents.get(threading.get_ident())
+
+    def block(self, me):
+        """``me`` cannot go on: give the turn to the next live thread."""
+        with self.cv:
+            nxt = self._next(me)
+            if nxt is None:
+                raise HarnessError("every scheduled thread is blocked")
+            self.switches += 1
+            self.current = nxt
+            self.cv.notify_all()
+            self._wait_turn(me)
+
     def __init__(self, n, preempt):
+        self.idents = {}
         self.cv = threading.Condition()
         self.n = n
         self.current = 0
@@ -293,7 +360,6 @@ class Scheduler:
 
 def run_threads(spec, preempt):
     """Run one schedule. Returns (violations, steps, switches)."""
-    opt = build_optimizer(spec)
     if "tq" in spec:
         plans = [[(query(spec["pool"][qi], tw), e, qi, tw) for qi, tw, e in l] for l in spec["tq"]]
         warm = [(query(spec["pool"][qi], tw), e) for qi, tw, e in spec.get("warmq", [])]
@@ -301,11 +367,8 @@ def run_threads(spec, preempt):
         plans = [[(query(net), e, i, 0)] for i, (net, e) in enumerate(zip(spec["pool"], spec["entries"]))]
         warm = [(p[0][0], p[0][1]) for p in plans] if spec.get("warm") else []
     n = len(plans)
-    # a first sequential pass so the threads meet a populated cache / a
-    # remembered last query
-    for q, e in warm:
-        ask(opt, e, q)
     sched = Scheduler(n, preempt)
+    box = {}
     results = [[] for _ in range(n)]
     # all threads must be alive before any of them runs: otherwise a short
     # lived thread can exit before the next is created and the OS recycles
@@ -330,13 +393,14 @@ def run_threads(spec, preempt):
 
     def work(me):
         try:
+            sched.idents[threading.get_ident()] = me
             barrier.wait(timeout=60)
             sched.start(me)
             sys.settrace(make_tracer(me))
             try:
                 for q, e, qi, tw in plans[me]:
                     try:
-                        results[me].append(("ok", ask(opt, e, q)))
+                        results[me].append(("ok", ask(box["opt"], e, q)))
                     except HarnessError as ex:
                         results[me].append(("harness", str(ex)))
                         break
@@ -353,12 +417,44 @@ def run_threads(spec, preempt):
             sched.finish(me)
 
     threads = [threading.Thread(target=work, args=(i,), daemon=True) for i in range(n)]
-    for t in threads:
-        t.start()
-    for t in threads:
-        t.join(timeout=120)
-        if t.is_alive():
-            raise HarnessError("a scheduled thread did not finish within 120 s")
+    # locks that the code under test creates while the schedule runs are
+    # cooperative ones (see CoopLock); the harness's own primitives exist already
+    real_lock, real_rlock = threading.Lock, threading.RLock
+    import cotengra.reusable as _R
+    import cotengra.presets as _P
+    import cotengra.hyperoptimizers.hyper as _H
+
+    class _Threading:
+        """the ``threading`` module as seen from the scheduled files"""
+
+        def __getattr__(self, name):
+            if name == "Lock":
+                return lambda: CoopLock(sched)
+            if name == "RLock":
+                return lambda: CoopLock(sched, reentrant=True)
+            return getattr(threading, name)
+
+    saved = []
+    for mod_ in (_R, _P, _H):
+        if getattr(mod_, "threading", None) is threading:
+            saved.append(mod_)
+            mod_.threading = _Threading()
+    try:
+        # the optimizer is built (and warmed up by a first sequential pass, so
+        # that the threads meet a populated cache / a remembered last query)
+        # with the cooperative locks already in place
+        box["opt"] = build_optimizer(spec)
+        for q, e in warm:
+            ask(box["opt"], e, q)
+        for t in threads:
+            t.start()
+        for t in threads:
+            t.join(timeout=120)
+            if t.is_alive():
+                raise HarnessError("a scheduled thread did not finish within 120 s")
+    finally:
+        for mod_ in saved:
+            mod_.threading = threading
     viol = []
     for i, rs in enumerate(results):
         if not rs:
@@ -366,7 +462,7 @@ def run_threads(spec, preempt):
         for j, r in enumerate(rs):
             q, e, qi, tw = plans[i][j]
             what = (
-                f"thread {i} query#{j} {spec['kind']}.{e}(pool {qi}{'abcd'[tw] if tw else ''}, N={len(q[0])}) "
+                f"thread {i} query#{j} {spec['kind']}.{e}(pool {qi}{'abcde'[tw] if tw else ''}, N={len(q[0])}) "
                 f"under preemptions {sorted(preempt)}"
             )
             if r[0] == "harness":
